@@ -188,8 +188,12 @@ pub fn exec_case(prop: &Property, scenario: u32, input: &[u8], strict: bool) -> 
             &clause,
             &rec.frame,
             format!(
-              "panic at {}:{} in {}: {}",
-              rec.file, rec.line, rec.frame, rec.message
+              "panic at {}:{} in {}: {}; stack: {}",
+              rec.file,
+              rec.line,
+              rec.frame,
+              rec.message,
+              rec.rustdds_frames.join(" <- ")
             ),
           );
           CaseResult {
@@ -529,12 +533,6 @@ pub fn run_property(prop: &Property, cfg: &RunConfig) -> i32 {
     });
   }
 
-  hooks::exclusion_clear();
-  for e in std::env::var("VERIF_EXCL").unwrap_or_default().split(',') {
-    if !e.is_empty() {
-      hooks::exclusion_enable(e);
-    }
-  }
   if let Ok(p) = std::env::var("VERIF_KNOWN_PRINTED") {
     let mut kp = shared.known_printed.lock().unwrap();
     for s in p.split('\x1f') {
@@ -544,6 +542,17 @@ pub fn run_property(prop: &Property, cfg: &RunConfig) -> i32 {
     }
   }
   let abort_prefix = format!("{}.abort|", prop.id.to_lowercase());
+  // Known findings and regression inputs are replayed with all generator
+  // exclusions OFF (their choice streams were saved that way); exclusions are
+  // switched on only for the generated campaign.
+  let env_exclusions: Vec<String> = std::env::var("VERIF_EXCL")
+    .unwrap_or_default()
+    .split(',')
+    .filter(|e| !e.is_empty())
+    .map(str::to_string)
+    .collect();
+  hooks::exclusion_clear();
+  let mut pending_exclusions: Vec<String> = env_exclusions;
   let mut known_status: Vec<Value> = Vec::new();
   let mut active_known: Vec<Known> = Vec::new();
   let mut regress_ran = 0u64;
@@ -588,7 +597,7 @@ pub fn run_property(prop: &Property, cfg: &RunConfig) -> i32 {
     if reproduced {
       print_known(&shared, prop, k);
       if let Some(ex) = &k.excl {
-        hooks::exclusion_enable(ex);
+        pending_exclusions.push(ex.clone());
       }
     }
     // The signature stays listed either way: a listed finding is never a VIOLATION.
@@ -639,6 +648,10 @@ pub fn run_property(prop: &Property, cfg: &RunConfig) -> i32 {
         return finish(prop, cfg, &shared, Stats::default(), Vec::new(), known_status, t0, 1, regress_ran);
       }
     }
+  }
+
+  for ex in &pending_exclusions {
+    hooks::exclusion_enable(ex);
   }
 
   // Stage 2: exhaustive enumeration, if the property has one
@@ -800,7 +813,7 @@ fn finish(
     "seed": cfg.seed as i64,
     "level": prop.level,
     "coverage": {
-      "evaluations": total.evaluations,
+      "evaluations": total.evaluations + regress_ran,
       "distinct_nontrivial": total.distinct_nontrivial.len() as u64 + exhaustive_nontrivial,
       "nontrivial_generated": total.nontrivial,
       "distinct_cases": total.distinct_all.len(),
